@@ -515,4 +515,91 @@ def rule_copy(ctx):
                         "what a tree executes is not shared with its copies", lambda i: True, 10)
 
 
-RULES = [rule_copy, rule_backend, rule_merge, rule_record, rule_consume, rule_recipes, rule_root, rule_topo]
+def _shared_rules():
+    """'Any complete tree' includes trees that were sliced, reconfigured, annealed, re-ordered or copied before they are executed: the invalidation clauses of C02 are necessary conditions of C01 as well."""
+    out = []
+
+    def _mk(src_mod="c02", fn="rule_lists", old="C02-LISTS", new="C01-LISTS", mn=2):
+        def rule(ctx):
+            import importlib
+            srcf = getattr(importlib.import_module("sa.rules." + src_mod), fn)
+            return C.reuse_rule(ctx, srcf, old, new, "shared clause of " + old + " (also a necessary condition here)", lambda i: True, mn)
+        rule.__name__ = "shared_" + new.lower().replace("-", "_")
+        return rule
+    out.append(_mk())
+
+    def _mk(src_mod="c02", fn="rule_closure", old="C02-CLOSURE", new="C01-CLOSURE", mn=3):
+        def rule(ctx):
+            import importlib
+            srcf = getattr(importlib.import_module("sa.rules." + src_mod), fn)
+            return C.reuse_rule(ctx, srcf, old, new, "shared clause of " + old + " (also a necessary condition here)", lambda i: True, mn)
+        rule.__name__ = "shared_" + new.lower().replace("-", "_")
+        return rule
+    out.append(_mk())
+
+    def _mk(src_mod="c02", fn="rule_reorder", old="C02-REORDER", new="C01-REORDER", mn=1):
+        def rule(ctx):
+            import importlib
+            srcf = getattr(importlib.import_module("sa.rules." + src_mod), fn)
+            return C.reuse_rule(ctx, srcf, old, new, "shared clause of " + old + " (also a necessary condition here)", lambda i: True, mn)
+        rule.__name__ = "shared_" + new.lower().replace("-", "_")
+        return rule
+    out.append(_mk())
+
+    def _mk(src_mod="c02", fn="rule_cores", old="C02-CORES", new="C01-CORES", mn=2):
+        def rule(ctx):
+            import importlib
+            srcf = getattr(importlib.import_module("sa.rules." + src_mod), fn)
+            return C.reuse_rule(ctx, srcf, old, new, "shared clause of " + old + " (also a necessary condition here)", lambda i: True, mn)
+        rule.__name__ = "shared_" + new.lower().replace("-", "_")
+        return rule
+    out.append(_mk())
+
+    def _mk(src_mod="c02", fn="rule_corekey", old="C02-COREKEY", new="C01-COREKEY", mn=1):
+        def rule(ctx):
+            import importlib
+            srcf = getattr(importlib.import_module("sa.rules." + src_mod), fn)
+            return C.reuse_rule(ctx, srcf, old, new, "shared clause of " + old + " (also a necessary condition here)", lambda i: True, mn)
+        rule.__name__ = "shared_" + new.lower().replace("-", "_")
+        return rule
+    out.append(_mk())
+
+    def _mk(src_mod="c02", fn="rule_node", old="C02-NODE", new="C01-NODE", mn=3):
+        def rule(ctx):
+            import importlib
+            srcf = getattr(importlib.import_module("sa.rules." + src_mod), fn)
+            return C.reuse_rule(ctx, srcf, old, new, "shared clause of " + old + " (also a necessary condition here)", lambda i: True, mn)
+        rule.__name__ = "shared_" + new.lower().replace("-", "_")
+        return rule
+    out.append(_mk())
+
+    def _mk(src_mod="c02", fn="rule_preproc", old="C02-PREPROC", new="C01-PREPROC", mn=1):
+        def rule(ctx):
+            import importlib
+            srcf = getattr(importlib.import_module("sa.rules." + src_mod), fn)
+            return C.reuse_rule(ctx, srcf, old, new, "shared clause of " + old + " (also a necessary condition here)", lambda i: True, mn)
+        rule.__name__ = "shared_" + new.lower().replace("-", "_")
+        return rule
+    out.append(_mk())
+
+    def _mk(src_mod="c02", fn="rule_slicearr", old="C02-SLICEARR", new="C01-SLICEARR", mn=2):
+        def rule(ctx):
+            import importlib
+            srcf = getattr(importlib.import_module("sa.rules." + src_mod), fn)
+            return C.reuse_rule(ctx, srcf, old, new, "shared clause of " + old + " (also a necessary condition here)", lambda i: True, mn)
+        rule.__name__ = "shared_" + new.lower().replace("-", "_")
+        return rule
+    out.append(_mk())
+
+    def _mk(src_mod="c02", fn="rule_slicesum", old="C02-SLICESUM", new="C01-SLICESUM", mn=2):
+        def rule(ctx):
+            import importlib
+            srcf = getattr(importlib.import_module("sa.rules." + src_mod), fn)
+            return C.reuse_rule(ctx, srcf, old, new, "shared clause of " + old + " (also a necessary condition here)", lambda i: True, mn)
+        rule.__name__ = "shared_" + new.lower().replace("-", "_")
+        return rule
+    out.append(_mk())
+    return out
+
+
+RULES = [rule_copy, rule_backend, rule_merge, rule_record, rule_consume, rule_recipes, rule_root, rule_topo] + _shared_rules()
